@@ -140,18 +140,47 @@ def float_cases(rng, n, binary_boundaries):
     return [v for v in vals if not (v < 0)]
 
 
+def corpus_lines(name):
+    import os
+    here = os.path.dirname(os.path.dirname(os.path.dirname(os.path.abspath(__file__))))
+    p = os.path.join(here, "corpus", name)
+    if not os.path.exists(p):
+        return []
+    return [l.strip() for l in open(p) if l.strip() and not l.startswith("#")]
+
+
+def shrink(item, rerun):
+    """Durations: zero out low-order digits / divide while the specification still fails."""
+    if item.get("mode") != "dur":
+        return item
+    best = int(item["case"])
+    best_out = None
+    for _ in range(80):
+        cands = []
+        s = str(best)
+        for k in range(len(s) - 1, 0, -1):
+            c = best // 10**k * 10**k
+            if c != best:
+                cands.append(c)
+        cands += [best // 10, best // 2, best - 1]
+        for c in cands:
+            if c < 0 or c >= best:
+                continue
+            impl, model, sb = rerun("dur", str(c), crate=item.get("crate", CRATE), release=item.get("release", False), drv=DRV)
+            if sb.startswith("false"):
+                best, best_out = c, (impl, model, sb)
+                break
+        else:
+            break
+    if best_out:
+        item = dict(item, case=str(best), impl=best_out[0], model=best_out[1], spec_verdict=best_out[2])
+    return item
+
+
 def streams(tier, rng):
     quick = tier == "quick"
     # ---- durations (exact) ------------------------------------------------
-    corpus = []
-    try:
-        import os
-        here = os.path.dirname(os.path.dirname(os.path.dirname(os.path.abspath(__file__))))
-        p = os.path.join(here, "corpus", "C18-dur.txt")
-        if os.path.exists(p):
-            corpus = [int(l.split()[0]) for l in open(p) if l.strip() and not l.startswith("#")]
-    except Exception:
-        corpus = []
+    corpus = [int(l.split()[0]) for l in corpus_lines("C18-dur.txt")]
     dur_vals = dedup(corpus + dur_boundary() + dur_random(rng, 2500 if quick else 200000))
     dur = [str(p) for p in dur_vals]
 
@@ -189,7 +218,7 @@ def streams(tier, rng):
 
     # ---- floats ------------------------------------------------------------
     nf = 1200 if quick else 60000
-    f64c, bytesc = [], []
+    f64c, bytesc = [], corpus_lines("C18-bytes.txt")
     sigs = [4, 4, 4, 4, 0, 1, 2, 3, 5, 6, 7, 8, 12, 17, 20]
     for i, v in enumerate(float_cases(rng, nf, False)):
         f64c.append(f"{bits_of(v)} {sigs[i % len(sigs)]}")
@@ -202,7 +231,7 @@ def streams(tier, rng):
             2**53 + 1, 10**18, 2**63, 2**64 - 1]
     pics = [0, 1, 2, 3, 999, 1000, 1001, 10**6, 10**9, 10**12 - 1, 10**12, 10**12 + 1, 3 * 10**12, 7 * 10**12, 60 * 10**12, 2**53, 2**64,
             10**24, 2**100, 2**127, U128]
-    thr = []
+    thr = corpus_lines("C18-thr.txt")
     for c in cnts:
         for p in pics:
             thr.append(f"{(len(thr)) % 4} {c} {p} {(len(thr) // 4) % 2}")
@@ -242,3 +271,22 @@ def streams(tier, rng):
         sts.append(Stream("duration-display-release", "dur", dur[::4], nontrivial=nt_num, release=True))
         sts.append(Stream("display_throughput-release", "thr", thr[::4], model_input=with_impl, nontrivial=nt_num, release=True))
     return sts
+
+MANIFEST = {
+    "text": "Coq theorems: for every picosecond value (all of N, so all of u128) Display of FineDuration equals the numeral of "
+            "p/unit truncated toward zero to max(0, 4-d) places + ' ' + suffix, with the unit the largest of ps..d not above p "
+            "(ns below 1 ns), integer digits in full, no trailing zeros, no exponent; never panics, the u128 product never "
+            "overflows and the integer handed to f64 stays below 10^15 < 2^53; the same for precisions 0..7 and any width; the "
+            "scaled rule for byte sizes/throughputs over exact rationals with 1000^k / 1024^k prefixes, zero count -> 0, zero "
+            "duration -> inf, no panic. The boolean specifications are parse-based, proved equivalent to the specification "
+            "strings, and evaluated on the implementation's outputs: exactly for durations, modulo relative 2^-50 for the "
+            "float paths. The unit table, suffixes, default precision, ps->ns threshold and both prefix tables are generated "
+            "from the source and tied to the property's tables by reflexivity obligations.",
+    "note": "Trusted: Coq kernel, extraction, OCaml driver, hooks fmt_duration(_with)/format_f64/format_bytes/display_throughput, "
+            "and one fact about Rust's float printing (n/10^s with n < 10^15, s <= 22 prints as its exact decimal numeral), "
+            "exercised on every duration case. Float arithmetic of the byte/throughput path is idealised as exact in the "
+            "theorems and tied to the code up to double-precision rounding by the correspondence check. Precisions above 7 "
+            "(not used by divan's table) are outside the theorems: the code's u128 product overflows from precision 11 on.",
+    "technique": "machine-checked proof in Coq (list/numeral lemmas, lia over N) + differential correspondence against the real crate "
+                 "+ generated-constant obligations",
+}
